@@ -199,7 +199,7 @@ def corpus_cases():
 
 
 def cases(ctx, scale):
-    return corpus_cases() + grid() + size_sweep(ctx, scale) + random_scenarios(ctx, ctx.scale(500, 6000) * scale)
+    return corpus_cases() + grid() + size_sweep(ctx, scale) + random_scenarios(ctx, ctx.scale(400, 6000) * scale)
 
 
 # ------------------------------------------------------------------------------------------------
@@ -311,7 +311,7 @@ def correspond(ctx):
         final = {tuple(p): e for p, e in r['tree']}
         for key, rec in r.get('log', {}).get('dest', {}).items():
             dest = tuple(json.loads(key))
-            if rec.get('writes') and isinstance(final.get(dest), list) and len(apply_exprs) < ctx.scale(400, 4000):
+            if rec.get('writes') and isinstance(final.get(dest), list) and len(apply_exprs) < ctx.scale(300, 4000):
                 data = final[dest]
                 order = listlit([f'({o}, {n})' for o, n in rec['writes']])
                 # the model writes slices of the (identical) data at the offsets and in the order the implementation wrote them
